@@ -29,7 +29,12 @@ Definition before_fix : cfg := {| nl_translate := true; name_chars := true |}.
 (* open(path).read() of a /proc/<pid>/ file *)
 Inductive file_res := FData (b : bytes) | FENOENT | FESRCH | FEACCES.
 (* os.stat(p) as used by path_exists_strict *)
-Inductive stat_res := SExists | SMissing | SDenied.
+(* why os.stat() said the path cannot be reached, when it is not a refusal: the path is not
+   there (ENOENT/ESRCH), a component is not a directory (ENOTDIR), a symlink loop (ELOOP),
+   a component > 255 or the path > 4095 bytes (ENAMETOOLONG), an I/O or stale-handle error ... *)
+Inductive probe_errno := ENOENT | ESRCH | ENOTDIR | ELOOP | ENAMETOOLONG | EIO | EOVERFLOW | ESTALE | EOTHER (n : Z).
+(* path_exists_strict(p): True / False for ANY OSError that is not a PermissionError / re-raised PermissionError (EACCES, EPERM) *)
+Inductive stat_res := SExists | SFails (e : probe_errno) | SDenied.
 (* os.readlink(); for a target also what os.stat() says about the string cut at the first NUL *)
 Inductive link_res := LTarget (raw : bytes) (st : stat_res) | LENOENT | LESRCH | LEACCES.
 
@@ -152,7 +157,7 @@ Definition pl_readlink (v : pview) (l : link_res) : outcome bytes :=
       match st with
       | SDenied => Exc AccessDenied     (* path_exists_strict re-raises PermissionError *)
       | SExists => Val p
-      | SMissing => Val (firstn (length p - 10) p)
+      | SFails _ => Val (firstn (length p - 10) p)   (* "except OSError: return False", whatever the errno *)
       end
     else Val p
   | LEACCES => Exc AccessDenied
